@@ -49,8 +49,14 @@ bool FeatureChecker::visitTemplateBefore(template_t& templ)
 
 void FeatureChecker::visitVariable(variable_t& var)
 {
-    if (var.uid.get_type().is_clock() && !var.init.empty() && var.init.uses_fp())
+    type_t type = var.uid.get_type();
+    while (type.is_array())  // arrays of clocks / channels count like their elements
+        type = type.get_sub();
+    if (type.is_clock() && !var.init.empty() && var.init.uses_fp())
         supported_methods.symbolic = false;
+    // covers template-local channels, which visitFrame(globals) does not see
+    if (type.is_channel() && !type.is(Constants::BROADCAST))
+        supported_methods.stochastic = false;
 }
 
 void FeatureChecker::visitEdge(edge_t& edge)
@@ -165,6 +171,8 @@ void FeatureChecker::visitFrame(const frame_t& frame)
 {
     for (size_t i = 0; i < frame.get_size(); ++i) {
         type_t t = frame.get_symbol(i).get_type();
+        while (t.is_array())
+            t = t.get_sub();
         if (t.is_channel() && !t.is(Constants::BROADCAST))
             supported_methods.stochastic = false;
     }
